@@ -488,7 +488,26 @@ fn shrink_via_subprocess(prop: &dyn Property, tier: Tier, case: &Case, sig: &str
     (shrunk, last)
 }
 
+/// scratch workspaces of runs that were killed (their process is gone) are removed
+fn sweep_stale_scratch() {
+    let Ok(rd) = std::fs::read_dir("/dev/shm") else { return };
+    for e in rd.flatten() {
+        let name = e.file_name().to_string_lossy().to_string();
+        let Some(rest) = name.strip_prefix("vcheck-ws-") else { continue };
+        let pid = rest.split('-').next().unwrap_or("");
+        if !pid.is_empty() && pid.chars().all(|c| c.is_ascii_digit()) && !std::path::Path::new(&format!("/proc/{pid}")).exists() {
+            let p = e.path();
+            if p.is_dir() && !p.is_symlink() {
+                let _ = std::fs::remove_dir_all(&p);
+            } else {
+                let _ = std::fs::remove_file(&p);
+            }
+        }
+    }
+}
+
 pub fn parent_main(prop: &dyn Property, tier: Tier) -> i32 {
+    sweep_stale_scratch();
     let start = Instant::now();
     let seed = seed_from_env();
     let id = prop.id();
